@@ -152,6 +152,7 @@ type boundsFn struct {
 	byKey       map[string][]ssa.Value
 	stores      map[string][]*ssa.Store
 	inFits      bool // re-entrancy guard of fitsAt
+	inCond      bool // re-entrancy guard of the postcondition facts
 	cuts        int  // number of cycle cuts taken by rangeOfAtom so far
 	noInline    bool // summary mode: calls stay atoms (the caller translates them)
 	phiDone     map[*ssa.Phi]bool
@@ -191,8 +192,9 @@ type Bounds struct {
 	wfMemo       map[*ssa.Function]bool
 	mwMemo       map[string]bool
 	roMemo       map[*ssa.Function]bool
-	neMemo       map[*ssa.Function]bool  // noElemWrites
-	premiseFacts map[*ssa.Function][]aff // facts established from call sites (bounds_premise.go)
+	neMemo       map[*ssa.Function]bool     // noElemWrites
+	premiseFacts map[*ssa.Function][]aff    // facts established from call sites (bounds_premise.go)
+	posts        map[*ssa.Function]postcond // proved postconditions (bounds_post.go)
 	raw          map[*ssa.Function]*boundsFn
 	symRng       map[string]ival
 	outOfScope   []string
@@ -1274,6 +1276,17 @@ func (bf *boundsFn) proveAt(e aff, b *ssa.BasicBlock, at ssa.Instruction) bool {
 			}
 		}
 	}
+	// postconditions of calls that dominate this point: usable once their
+	// condition follows from the facts collected so far
+	if len(bf.B.posts) > 0 && !bf.inCond {
+		bf.inCond = true
+		for _, cf := range bf.condFactsAt(b, at) {
+			if bf.impliedBy(cf.cond, fs) {
+				fs = append(fs, cf.fact)
+			}
+		}
+		bf.inCond = false
+	}
 	for _, f := range fs {
 		if bf.rangeOfAff(e.add(f, -1)).lo >= 0 {
 			return true
@@ -1294,7 +1307,104 @@ func (bf *boundsFn) proveAt(e aff, b *ssa.BasicBlock, at ssa.Instruction) bool {
 			}
 		}
 	}
+	return bf.proveFM(e, fs)
+}
+
+// proveFM: Fourier–Motzkin refutation of e ≤ −1 from the facts that share
+// atoms with e (transitively) and the finite type/range bounds of those atoms.
+func (bf *boundsFn) proveFM(e aff, fs []aff) bool {
+	rel := map[interface{}]bool{}
+	for x := range e.t {
+		rel[x] = true
+	}
+	used := make([]bool, len(fs))
+	var cs []aff
+	for changed, rounds := true, 0; changed && rounds < 4; rounds++ {
+		changed = false
+		for i, f := range fs {
+			if used[i] || len(f.t) == 0 {
+				continue
+			}
+			share := false
+			for x := range f.t {
+				if rel[x] {
+					share = true
+				}
+			}
+			if !share {
+				continue
+			}
+			used[i] = true
+			changed = true
+			cs = append(cs, f)
+			for x := range f.t {
+				rel[x] = true
+			}
+			if len(cs) > 28 {
+				return false
+			}
+		}
+	}
+	if len(cs) == 0 || len(rel) > 14 {
+		return false
+	}
+	var atoms []interface{}
+	for x := range rel {
+		atoms = append(atoms, x)
+	}
+	sort.Slice(atoms, func(i, j int) bool { return atomOrderKey(atoms[i]) < atomOrderKey(atoms[j]) })
+	for _, x := range atoms {
+		r := bf.rangeOfAtom(x)
+		if r.lo > negInfI/2 {
+			cs = append(cs, affAtom(x).add(affConst(r.lo), -1))
+		}
+		if r.hi < posInfI/2 {
+			cs = append(cs, affConst(r.hi).add(affAtom(x), -1))
+		}
+	}
+	return fmProve(cs, e)
+}
+
+// impliedBy: e ≥ 0 follows from at most two of the facts fs.
+func (bf *boundsFn) impliedBy(e aff, fs []aff) bool {
+	if bf.rangeOfAff(e).lo >= 0 {
+		return true
+	}
+	for i, f := range fs {
+		if bf.rangeOfAff(e.add(f, -1)).lo >= 0 {
+			return true
+		}
+		for _, g := range fs[i:] {
+			if bf.rangeOfAff(e.add(f, -1).add(g, -1)).lo >= 0 {
+				return true
+			}
+		}
+	}
 	return false
+}
+
+// condFactsAt instantiates the proved postconditions for every call of such a
+// function that dominates the point.
+func (bf *boundsFn) condFactsAt(b *ssa.BasicBlock, at ssa.Instruction) []condFact {
+	var out []condFact
+	for d := b; d != nil; d = d.Idom() {
+		for _, ins := range d.Instrs {
+			c, ok := ins.(*ssa.Call)
+			if !ok {
+				continue
+			}
+			callee := c.Call.StaticCallee()
+			pc, has := bf.B.posts[callee]
+			if !has {
+				continue
+			}
+			if d == b && at != nil && !instrBefore(c, at) {
+				continue
+			}
+			out = append(out, pc.inst(bf, c))
+		}
+	}
+	return out
 }
 
 func (bf *boundsFn) affString(a aff) string {
@@ -1633,5 +1743,57 @@ func (bf *boundsFn) phiRelFacts(phi *ssa.Phi) {
 		bf.global = append(bf.global, affAtom(ssa.Value(phi)).add(inits[0], -1)) // phi - init ≥ 0
 	} else {
 		bf.global = append(bf.global, inits[0].add(affAtom(ssa.Value(phi)), -1)) // init - phi ≥ 0
+	}
+	bf.lockstepFacts(phi)
+}
+
+// constStep: phi = φ(init, phi + c) with the same constant c ≠ 0 on every
+// back edge and one initial value.
+func (bf *boundsFn) constStep(phi *ssa.Phi) (init aff, step int64, ok bool) {
+	var inits []aff
+	have := false
+	for _, e := range phi.Edges {
+		ea := bf.affOf(e)
+		if c, has := ea.t[ssa.Value(phi)]; has && c == 1 {
+			d := ea.add(affAtom(ssa.Value(phi)), -1)
+			if !d.isConst() || d.k == 0 || (have && d.k != step) {
+				return aff{}, 0, false
+			}
+			step, have = d.k, true
+			continue
+		}
+		if _, self := ea.t[ssa.Value(phi)]; self {
+			return aff{}, 0, false
+		}
+		inits = append(inits, ea)
+	}
+	if !have || len(inits) != 1 {
+		return aff{}, 0, false
+	}
+	return inits[0], step, true
+}
+
+// lockstepFacts: two counters of the same loop head that both move by a
+// constant on every iteration stay on a line:
+// step2·(phi1 − init1) = step1·(phi2 − init2).
+func (bf *boundsFn) lockstepFacts(phi *ssa.Phi) {
+	i1, s1, ok := bf.constStep(phi)
+	if !ok {
+		return
+	}
+	for _, ins := range phi.Block().Instrs {
+		other, isPhi := ins.(*ssa.Phi)
+		if !isPhi {
+			break
+		}
+		if other == phi || !isIntType(other.Type()) {
+			continue
+		}
+		i2, s2, ok := bf.constStep(other)
+		if !ok {
+			continue
+		}
+		d := affAtom(ssa.Value(phi)).add(i1, -1).scale(s2).add(affAtom(ssa.Value(other)).add(i2, -1).scale(s1), -1)
+		bf.global = append(bf.global, d, d.scale(-1))
 	}
 }
